@@ -17,6 +17,7 @@
    (3) The barrier's inner mutex is free and has no queued listener between polls; no unreachable branch. *)
 From AL Require Import Base Api Mutex BarrierApi BarrierInv.
 From AL.Tie Require Tie_Barrier Tie_Mutex.
+From AL.Sched Require BarrierEvSched BarrierEvInv BarrierEvOrd.
 
 Theorem C09_refines : forall (n : N) (ops : list bop), n < USZ -> N.of_nat (length ops) < BAR_BOUND ->
   map o_res (btrace (bw_init n) ops) = atrace n a_init ops /\ abs (brun n ops) = arun n ops /\ BInv (brun n ops).
@@ -48,8 +49,25 @@ Example C09_nonvacuous :
   = [RUnit; RUnit; RUnit; RUnit; RPending; RPending; RLeader true; RPending; RLeader true; RLeader false; RLeader false].
 Proof. vm_compute. reflexivity. Qed.
 
+(* ---------- schedule half: every interleaving ---------- *)
+(* The micro-step machine of Sched/BarrierEvSched.v: the critical sections of the state mutex (arrival; re-check after a
+   notification) are atomic actions — mutual exclusion and liveness of that mutex are C01 and C05 —, the poll of the
+   listener happens outside them; any number of wait() futures, spurious polls, cancellation of waiting futures.
+   [gen_bar_ln] says which machine the source is (read from Gen/Sites.v).
+   For EVERY schedule shorter than 2^64 - 1 actions: when no thread is inside a poll or a drop and every future whose waker
+   was called has been polled again, no polled wait() whose generation is over still waits. *)
+Theorem C09_sched : forall (sched : list BarrierEvSched.act) (parties : N) (nfuts : nat), N.of_nat (length sched) <= BarrierEvSched.NMAX ->
+  BarrierEvSched.lostb (BarrierEvSched.run BarrierEvSched.gen_bar_ln parties nfuts sched) = false.
+Proof. rewrite BarrierEvOrd.bar_ln_premise. exact BarrierEvInv.barrier_sched_no_lost_wakeup. Qed.
+
+(* teeth: the machine whose leader does not notify leaves the other parties asleep *)
+Theorem C09_sched_no_notify_refuted : BarrierEvSched.lostb (BarrierEvSched.run false 3 3 BarrierEvSched.trio_schedule) = true.
+Proof. exact BarrierEvInv.barrier_sched_no_notify_refuted. Qed.
+
 Print Assumptions C09_refines.
 Print Assumptions C09_released_complete.
 Print Assumptions C09_spec_sane.
 Print Assumptions C09_mutex_free.
 Print Assumptions C09_no_error.
+Print Assumptions C09_sched.
+Print Assumptions C09_sched_no_notify_refuted.
